@@ -20,15 +20,31 @@ Rec == ndJsonDeserialize(IOEnv.TRACE)
 Start == IF "TRACE_START" \in DOMAIN IOEnv THEN atoi(IOEnv.TRACE_START) ELSE 1
 
 VARIABLES l,        \* next line of the trace
-          d, out    \* Duration machine (DurationMachine)
+          d, out,   \* Duration machine (DurationMachine)
+          e, eout,  \* Epoch machine (EpochMachine)
+          sw,       \* previous item of a sorted sweep (monotonicity along recorded sequences)
+          ser, sout,\* TimeSeries machine (SeriesMachine)
+          w, wout   \* Weekday machine (WeekdayMachine)
 
-vars == <<l, d, out>>
+vars == <<l, d, out, e, eout, sw, ser, sout, w, wout>>
 
 M == INSTANCE DurationMachine WITH
        NPC <- NPCr, CMIN <- -32768, CMAX <- 32767,
        N <- B!FromInt, I <- B!ToInt,
        Add <- B!Add, Sub <- B!Sub, Mul <- B!Mul, QuotT <- B!QuotT,
        DivF <- B!DivF, ModF <- B!ModF, Lt <- B!Lt, Le <- B!Le, U <- Ur
+
+(* closed-form centre of the dynamical scales: defined below (C07) *)
+DynCenterR(ts, v) == B!Sub(B!Add(v, J2000Ns), Msec(32184))
+
+X == INSTANCE SeriesMachine WITH
+       NPC <- NPCr, CMIN <- -32768, CMAX <- 32767,
+       N <- B!FromInt, I <- B!ToInt,
+       Add <- B!Add, Sub <- B!Sub, Mul <- B!Mul, QuotT <- B!QuotT,
+       DivF <- B!DivF, ModF <- B!ModF, Lt <- B!Lt, Le <- B!Le, U <- Ur,
+       Ref <- RefR, Leap <- LeapR, GregDay <- GregDayR, GregTod <- GregTodR,
+       DynCenter <- DynCenterR, DynTol <- B!FromInt(30), FarTol <- B!FromInt(100)
+W == INSTANCE WeekdayMachine
 
 -----------------------------------------------------------------------------
 E == Rec[l]
@@ -97,12 +113,12 @@ IsSortedBy(xs) == \A i \in 1..(Len(xs) - 1) : B!Le(DV(xs[i]), DV(xs[i + 1]))
 SameBag(xs, ys) == /\ Len(xs) = Len(ys)
                    /\ \A i \in 1..Len(xs) :
                         Cardinality({j \in 1..Len(xs) : xs[j] = xs[i]}) = Cardinality({j \in 1..Len(ys) : ys[j] = xs[i]})
-TrSort == IsOp("sort") /\ UNCHANGED <<d, out>> /\ Has(E, "res") /\ Len(E.res) = Len(E.xs)
-            /\ IsSortedBy(E.res) /\ SameBag(E.xs, E.res)
+TrSort == IsOp("sort") /\ UNCHANGED <<d, out>> /\ Has(E.res, "v") /\ Len(E.res.v) = Len(E.xs)
+            /\ IsSortedBy(E.res.v) /\ SameBag(E.xs, E.res.v)
 
 (* decomposition and composition *)
-TrDecompose == IsOp("decompose") /\ M!MDecompose /\
-         LET x == out'[2]  r == E.res IN
+TrDecompose == IsOp("decompose") /\ M!MDecompose /\ Has(E.res, "v") /\
+         LET x == out'[2]  r == E.res.v IN
            /\ Len(r) = 8 /\ r[1] = x[1]
            /\ \A k \in 2..8 : Mg(r[k]) = x[k]
 TrCompose == IsOp("compose") /\
@@ -150,8 +166,185 @@ DurationNext ==
   \/ TrCmp \/ TrCmpUnit \/ TrSort \/ TrDecompose \/ TrCompose \/ TrFromStd \/ TrIntoStd
 
 -----------------------------------------------------------------------------
-TraceInit == l = Start /\ M!DInit
-TraceNext == DurationNext
+(* Epoch machine: C04, C05, C06, C08, C09 (fields), C12, C14 (epochs), C16, C20 *)
+
+EV(p)          == X!Ep(p.ts, DV(p))                       \* a logged epoch {"ts","c","n"}
+IsEp(r)        == Has(r, "ts") /\ IsDur(r)
+EpIs(r, x)     == IsEp(r) /\ r.ts = x.ts /\ M!Parts(x.v) = <<r.c, Mg(r.n)>>
+KeepD          == UNCHANGED <<d, out>>
+KeepE          == UNCHANGED <<e, eout, sw>>
+KeepS          == UNCHANGED <<ser, sout>>
+KeepW          == UNCHANGED <<w, wout>>
+
+TrELoad  == IsOp("eload") /\ KeepD /\ X!ELoad(E.ts, E.c, Mg(E.n)) /\ EpIs(E.res, e')
+TrEAdd   == IsOpIn({"e_add_d", "e_add_assign_d"}) /\ KeepD /\ X!EAddD(DV(E.b)) /\ EpIs(E.res, e')
+TrESub   == IsOpIn({"e_sub_d", "e_sub_assign_d"}) /\ KeepD /\ X!ESubD(DV(E.b)) /\ EpIs(E.res, e')
+TrEAddU  == IsOpIn({"e_add_unit", "e_add_assign_unit"}) /\ KeepD /\ X!EAddD(Ur[E.u]) /\ EpIs(E.res, e')
+TrESubU  == IsOpIn({"e_sub_unit", "e_sub_assign_unit"}) /\ KeepD /\ X!ESubD(Ur[E.u]) /\ EpIs(E.res, e')
+(* Epoch + f64 seconds, the float being an exact integer (logged as that integer) *)
+TrEAddF  == IsOp("e_add_f64") /\ KeepD /\ X!EAddD(M!Clamp(B!Mul(Big(E.secs), Ur[4]))) /\ EpIs(E.res, e')
+
+(* e - f: the re-expression fc of f in the scale of e is not logged; TLC infers it *)
+TrESubE == IsOp("e_sub_e") /\ KeepD /\ IsDur(E.res) /\
+           LET f == EV(E.f)
+               cands == {X!Ep(e.ts, x) : x \in (X!ConvSet(f, e.ts) \cup {B!Sub(e.v, DV(E.res))})}
+           IN  \E fc \in cands : X!ESubE(f, fc) /\ DurIs(E.res, eout'[2])
+
+TrToScale == IsOp("to_scale") /\ KeepD /\ IsEp(E.res) /\ X!EToScale(E.to, EV(E.res))
+               /\ M!Canonical(<<E.res.c, Mg(E.res.n)>>)
+(* to_duration_in_time_scale, to_tai_duration, to_utc_duration, ...: same judgement, register kept *)
+TrToDur   == IsOp("to_dur") /\ KeepD /\ IsDur(E.res) /\ KeepE
+               /\ X!ConvAny(e, E.to, X!Ep(E.to, DV(E.res))) /\ M!Canonical(<<E.res.c, Mg(E.res.n)>>)
+
+(* comparison: every operator at once, mutually consistent, and chronological *)
+TrECmp == IsOp("e_cmp") /\ KeepD /\ Has(E.res, "cmp") /\
+          LET r == E.res  c == r.cmp  f == EV(E.f) IN
+            /\ c \in {-1, 0, 1} /\ r.pcmp = c
+            /\ r.lt = (c < 0) /\ r.le = (c <= 0) /\ r.gt = (c > 0) /\ r.ge = (c >= 0)
+            /\ r.ne = ~r.eq
+            \* == converts in the other direction than < when exactly one operand is UTC; where a
+            \* conversion saturates the two need not agree and the statement is silent
+            /\ ((e.ts = f.ts \/ (X!Roomy(e) /\ X!Roomy(f))) => r.eq = (c = 0))
+            \* Epoch::min/max and Ord::min/max: the earlier / later operand; either one when they are equal
+            /\ (e.ts = f.ts \/ (X!Roomy(e) /\ X!Roomy(f))) =>
+                 /\ \A fld \in {"min", "omin"} : IF c = 0 THEN (EpIs(r[fld], e) \/ EpIs(r[fld], f)) ELSE EpIs(r[fld], IF c < 0 THEN e ELSE f)
+                 /\ \A fld \in {"max", "omax"} : IF c = 0 THEN (EpIs(r[fld], e) \/ EpIs(r[fld], f)) ELSE EpIs(r[fld], IF c > 0 THEN e ELSE f)
+            /\ X!ECmp(f, c)
+
+TrEFloor == IsOp("e_floor") /\ KeepD /\ X!EFloor(DV(E.s)) /\ EpIs(E.res, e')
+TrECeil  == IsOp("e_ceil")  /\ KeepD /\ IsEp(E.res) /\ X!ECeil(DV(E.s), DV(E.res)) /\ EpIs(E.res, e')
+TrERound == IsOp("e_round") /\ KeepD /\ IsEp(E.res) /\ X!ERound(DV(E.s), DV(E.res)) /\ EpIs(E.res, e')
+
+(* Gregorian construction through maybe_from_gregorian* and the helper constructors *)
+TrFromGreg == IsOp("from_greg") /\ KeepD /\
+          LET ok == IsEp(E.res)
+              r  == IF ok THEN EV(E.res) ELSE e IN
+            /\ (ok \/ Has(E.res, "err"))
+            /\ X!EFromGreg(E.ts, E.y, E.m, E.d, E.hh, E.mi, E.ss, E.ns, ok, r)
+            /\ (ok => M!Canonical(<<E.res.c, Mg(E.res.n)>>))
+TrIsValid == IsOp("is_valid") /\ KeepD /\ KeepE
+            /\ Has(E.res, "v") /\ E.res.v \in BOOLEAN
+            /\ (X!MustAccept(E.y, E.m, E.d, E.hh, E.mi, E.ss, E.ns) => E.res.v = TRUE)
+            /\ (X!MustReject(E.y, E.m, E.d, E.hh, E.mi, E.ss, E.ns) => E.res.v = FALSE)
+
+(* Gregorian fields in scale E.to; the re-expression of the register is inferred *)
+ConvCands(ts2) == {X!Ep(ts2, x) : x \in X!ConvSet(e, ts2)}
+TrToGreg == IsOp("to_greg") /\ KeepD /\ Has(E.res, "v") /\
+            \E rc \in ConvCands(E.to) : X!EToGreg(E.to, rc) /\ eout'[2] = E.res.v
+TrWeekday == IsOp("weekday") /\ KeepD /\ Has(E.res, "v") /\
+            \E rc \in ConvCands(E.to) : X!EWeekday(E.to, rc) /\ eout'[2] = E.res.v
+TrNext == IsOp("next") /\ KeepD /\ \E rc \in ConvCands(X!TAI) : X!ENext(E.w, rc) /\ EpIs(E.res, e')
+TrPrev == IsOp("previous") /\ KeepD /\ \E rc \in ConvCands(X!TAI) : X!EPrev(E.w, rc) /\ EpIs(E.res, e')
+
+(* week / time of week, nanosecond counters *)
+TrFromTOW == IsOp("from_tow") /\ KeepD /\ X!EFromTOW(E.ts, Big(E.w), Big(E.n)) /\ EpIs(E.res, e')
+TrToTOW   == IsOp("to_tow") /\ KeepD /\ X!EToTOW /\ Big(E.res.w) = eout'[2][1] /\ Big(E.res.n) = eout'[2][2]
+TrFromNs  == IsOp("from_ns") /\ KeepD /\ X!ELoad(E.ts, 0, Mg(E.n)) /\ EpIs(E.res, e')
+TrToNs    == IsOp("to_ns") /\ KeepD /\ KeepE /\
+             \E rc \in ConvCands(E.to) :
+                LET p == M!Parts(rc.v) IN
+                  \/ Has(E.res, "ok") /\ p[1] = 0 /\ Big(E.res.ok) = p[2]
+                  \/ Has(E.res, "err") /\ p[1] # 0
+
+(* the public reference-epoch constants denote the documented instants (C05) *)
+TrRefConst == IsOp("ref_const") /\ KeepD /\ UNCHANGED <<e, eout>> /\ IsEp(E.res) /\
+              X!Instant(EV(E.res)) = (CASE E.k = 1 -> RefR[5] [] E.k = 2 -> RefR[8] [] E.k = 3 -> RefR[6]
+                                        [] E.k = 4 -> RefR[7] [] E.k = 5 -> DaysNs(Cal!N(1970, 1, 1))
+                                        [] OTHER -> X!Instant(EV(E.res)))
+TrOffsetConsts == IsOp("offset_consts") /\ KeepD /\ UNCHANGED <<e, eout>>
+              /\ B!Mul(Big(E.gps), Ur[4]) = RefR[5] /\ B!Mul(Big(E.gst), Ur[4]) = RefR[6] /\ B!Mul(Big(E.bdt), Ur[4]) = RefR[7]
+              /\ F64IsInt(E.gps_f) /\ F64Int(E.gps_f) = Big(E.gps)
+              /\ F64IsInt(E.gst_f) /\ F64Int(E.gst_f) = Big(E.gst)
+              /\ F64IsInt(E.bdt_f) /\ F64Int(E.bdt_f) = Big(E.bdt)
+
+(* sorted sweep TAI -> UTC: each item admissible, and never earlier than its predecessor (C06) *)
+TrSweepUtc == IsOp("sweep_utc") /\ KeepD /\ UNCHANGED <<e, eout>> /\ IsEp(E.res) /\ E.res.ts = X!UTC
+              /\ DV(E.res) \in X!TaiToUtcSet(DV(E.tai))
+              /\ (E.first \/ B!Le(sw, DV(E.res)))
+              /\ sw' = DV(E.res)
+
+(* F27: TAI instants in the ten seconds that follow 1972-01-01T00:00:00 TAI - the stretch the   *)
+(* first table entry makes UTC -> TAI skip - are converted to UTC with the NEW offset (t - 10 s) *)
+(* instead of waiting at the entry, so TAI -> UTC jumps back by 10 s at that instant.  Pinned by *)
+(* tests/epoch.rs::utc_tai (to_tai_seconds() > to_utc_seconds() at TAI 1972-01-01T00:00:00).     *)
+F27Applies(x) == Open("F27") /\ x.ts \in (X!Uniform) /\ X!StepAt(X!Instant(x)) = 1 /\ X!InGap(X!Instant(x))
+F27Utc(x)     == B!Sub(X!Instant(x), X!LeapD(1))
+Dev_F27 ==
+  /\ \/ /\ IsOp("to_scale") /\ E.to = X!UTC /\ F27Applies(e) /\ KeepD /\ UNCHANGED sw
+          /\ e' = X!Ep(X!UTC, F27Utc(e)) /\ EpIs(E.res, e') /\ eout' = <<"conv", e'>>
+      \/ /\ IsOp("to_dur") /\ E.to = X!UTC /\ F27Applies(e) /\ KeepD /\ KeepE
+          /\ DurIs(E.res, F27Utc(e))
+      \/ /\ IsOp("sweep_utc") /\ F27Applies(X!Ep(X!TAI, DV(E.tai))) /\ KeepD /\ UNCHANGED <<e, eout>>
+          /\ DurIs(E.res, F27Utc(X!Ep(X!TAI, DV(E.tai)))) /\ sw' = DV(E.res)
+      \/ /\ IsOp("e_sub_e") /\ e.ts = X!UTC /\ F27Applies(EV(E.f)) /\ KeepD /\ KeepE
+          /\ DurIs(E.res, M!DSub(e.v, F27Utc(EV(E.f))))
+      \/ /\ IsOp("e_cmp") /\ e.ts = X!UTC /\ F27Applies(EV(E.f)) /\ KeepD /\ KeepE /\ Has(E.res, "cmp")
+          /\ E.res.cmp = M!DCmp(e.v, F27Utc(EV(E.f))) /\ E.res.cmp # X!ChronoCmp(e, EV(E.f))
+      \/ /\ IsOpIn({"to_greg", "weekday"}) /\ E.to = X!UTC /\ F27Applies(e) /\ KeepD /\ KeepE
+          /\ Has(E.res, "v")
+          /\ E.res.v = (IF E.op = "to_greg" THEN X!Fields(X!UTC, F27Utc(e)) ELSE X!WeekdayIn(X!UTC, F27Utc(e)))
+  /\ Known("F27")
+
+(* F11: 30 and 31 February are accepted in leap years and silently become 1 and 2 March.       *)
+(* Pinned by tests/epoch.rs::test_range, which builds 2012-02-30 with a panicking constructor.   *)
+F11Class == E.m = 2 /\ E.d \in {30, 31} /\ Cal!IsLeap(E.y)
+            /\ ~X!MustReject(E.y, 2, 29, E.hh, E.mi, E.ss, E.ns)
+F11Exact == X!MustAccept(E.y, 2, 29, E.hh, E.mi, E.ss, E.ns) /\ E.ss < 60
+Dev_F11 ==
+  /\ Open("F11")
+  /\ \/ /\ IsOp("from_greg") /\ F11Class /\ KeepD /\ UNCHANGED sw /\ IsEp(E.res)
+          /\ e' = EV(E.res) /\ eout' = <<"greg", TRUE>>
+          /\ (F11Exact => e' = X!Ep(E.ts, X!FromFieldsRaw(E.ts, E.y, E.m, E.d, E.hh, E.mi, E.ss, E.ns)))
+      \/ /\ IsOp("is_valid") /\ F11Class /\ KeepD /\ KeepE /\ Has(E.res, "v") /\ E.res.v = TRUE
+  /\ Known("F11")
+
+EpochNext1 ==
+  \/ TrRefConst \/ TrOffsetConsts
+  \/ TrELoad \/ TrEAdd \/ TrESub \/ TrEAddU \/ TrESubU \/ TrEAddF \/ TrESubE
+  \/ TrToScale \/ TrToDur \/ TrECmp \/ TrEFloor \/ TrECeil \/ TrERound
+  \/ TrFromGreg \/ TrIsValid \/ TrToGreg \/ TrWeekday \/ TrNext \/ TrPrev
+  \/ TrFromTOW \/ TrToTOW \/ TrFromNs \/ TrToNs
+(* F1 through Epoch::floor / ceil / round (they act on the elapsed time with Duration's methods) *)
+Dev_F1E ==
+  /\ Open("F1") /\ KeepD /\ UNCHANGED sw /\ l <= Len(Rec) /\ IsEp(E.res)
+  /\ \/ /\ IsOp("e_floor") /\ (M!F1Class(e.v) \/ M!F1Class(DV(E.s)))
+          /\ e' = X!Ep(e.ts, M!F1Floor(e.v, DV(E.s))) /\ e'.v # M!Floor(e.v, DV(E.s))
+      \/ /\ IsOp("e_ceil") /\ (M!F1Class(e.v) \/ M!F1Class(DV(E.s)) \/ M!F1Class(M!F1Floor(e.v, DV(E.s))))
+          /\ e' = X!Ep(e.ts, M!F1Ceil(e.v, DV(E.s))) /\ e'.v \notin M!CeilSet(e.v, DV(E.s))
+      \/ /\ IsOp("e_round") /\ (M!F1Class(e.v) \/ M!F1Class(DV(E.s)) \/ M!F1Class(M!F1Floor(e.v, DV(E.s))))
+          /\ e' = X!Ep(e.ts, M!F1Round(e.v, DV(E.s))) /\ e'.v \notin M!RoundSet(e.v, DV(E.s))
+  /\ EpIs(E.res, e') /\ eout' = <<"epoch", e'>>
+  /\ Known("F1")
+
+EpochNext == TrSweepUtc \/ (UNCHANGED sw /\ EpochNext1) \/ Dev_F27 \/ Dev_F11 \/ Dev_F1E
+
+-----------------------------------------------------------------------------
+(* TimeSeries machine: C15 *)
+TrSeriesNew == IsOp("series_new") /\ Has(E.res, "v") /\
+      LET st == EV(E.start)  en == EV(E.end) IN
+        \E sc \in {X!Ep(en.ts, x) : x \in X!ConvSet(st, en.ts)} : X!SNew(st, en, DV(E.step), E.incl, sc)
+ItemIs(r, o) == \/ (o[1] = "none" /\ Has(r, "none"))
+                \/ (o[1] = "some" /\ EpIs(r, o[2]))
+TrSeriesNext == IsOp("series_next") /\ X!SNext /\ ItemIs(E.res, sout')
+TrSeriesNth  == IsOp("series_nth")  /\ X!SNth(E.n) /\ ItemIs(E.res, sout')
+SeriesNext == TrSeriesNew \/ TrSeriesNext \/ TrSeriesNth
+
+(* Weekday machine: C16 (arithmetic modulo 7) *)
+WdIs(r, x) == Has(r, "v") /\ r.v = x
+TrWdFromU8 == IsOp("wd_from_u8") /\ W!WFromU8(E.u) /\ WdIs(E.res, w')
+TrWdFromI8 == IsOp("wd_from_i8") /\ W!WFromI8(E.i) /\ WdIs(E.res, w')
+TrWdAddU8  == IsOpIn({"wd_add_u8", "wd_add_assign_u8"}) /\ W!WAddU8(E.u) /\ WdIs(E.res, w')
+TrWdSubU8  == IsOpIn({"wd_sub_u8", "wd_sub_assign_u8"}) /\ W!WSubU8(E.u) /\ WdIs(E.res, w')
+TrWdAddW   == IsOp("wd_add_w") /\ W!WAddW(E.b) /\ WdIs(E.res, w')
+TrWdDiff   == IsOp("wd_diff") /\ W!WDiff(E.b) /\ DurIs(E.res, B!Mul(B!FromInt(wout'[2]), Ur[7]))
+WeekdayNext == TrWdFromU8 \/ TrWdFromI8 \/ TrWdAddU8 \/ TrWdSubU8 \/ TrWdAddW \/ TrWdDiff
+
+-----------------------------------------------------------------------------
+TraceInit == l = Start /\ M!DInit /\ X!EInit /\ sw = B!Zero /\ X!SInit /\ W!WInit
+TraceNext == \/ (DurationNext /\ KeepE /\ KeepS /\ KeepW)
+             \/ (EpochNext /\ KeepS /\ KeepW)
+             \/ (SeriesNext /\ KeepD /\ KeepE /\ KeepW)
+             \/ (WeekdayNext /\ KeepD /\ KeepE /\ KeepS)
 TraceSpec == TraceInit /\ [][TraceNext]_vars
 
 (* invariants evaluated at every step of every validated trace *)
